@@ -201,7 +201,9 @@ def generate(seed: int, run: int, tier: str) -> dict:
         if style == "mixed" and rng.random() < 0.2:
             ops.append({"op": "create", "kind": rng.choice(["Symbol", "Function", "Quantity", "CoordinateSystem", "IndexedSymbol", "VectorSymbol", "Symbolic"]), "k": rng.choice([1, 3, 10, 50])})
         if rng.random() < 0.05:
-            ops.append({"op": "failed_docs_page", "m": rng.choice(mods)})
+            # one or two pages fail in a row before the caller recovers, either by assigning SymPy's flag
+            # or through the library's own reset_sympy_evaluation() ("restores auto processing")
+            ops.append({"op": "failed_docs_page", "m": rng.choice(mods), "repeat": rng.choice([1, 2]), "recover": rng.choice(["assign", "api"])})
         if rng.random() < 0.06:
             ops.append({"op": "churn_dims", "k": rng.choice([20, 100, 400])})
         if rng.random() < 0.05:
@@ -350,7 +352,10 @@ def systematic_jobs(tier: str, seed: int, ctx) -> list[dict]:
             jobs.append(_job(seed, f"sys:{i}:{v}", ENV0, ops))
         # the module is imported first, *then* the user creates objects of their own (wrappers, symbols,
         # functions, quantities whose display names coincide with catalogue ones), then the module is used
-        jobs.append(_job(seed, f"sys:{i}:after", ENV0, [{"op": "import", "m": m}, {"op": "create", "kind": "Symbolic", "k": 1}, {"op": "create", "kind": "Function", "k": 2}, {"op": "create", "kind": "Quantity", "k": 3}, {"op": "create", "kind": "IndexedSymbol", "k": 2}, {"op": "create", "kind": "Point", "k": 2}, {"op": "churn_dims", "k": 40}, {"op": "observe", "m": m}]))
+        # every fourth module: two documentation pages fail first (inside an evaluation-disabled window),
+        # the caller recovers through reset_sympy_evaluation()
+        failed = [{"op": "failed_docs_page", "m": m, "repeat": 2, "recover": "api"}] if i % 4 == 0 else []
+        jobs.append(_job(seed, f"sys:{i}:after", ENV0, failed + [{"op": "import", "m": m}, {"op": "create", "kind": "Symbolic", "k": 1}, {"op": "create", "kind": "Function", "k": 2}, {"op": "create", "kind": "Quantity", "k": 3}, {"op": "create", "kind": "IndexedSymbol", "k": 2}, {"op": "create", "kind": "Point", "k": 2}, {"op": "churn_dims", "k": 40}, {"op": "observe", "m": m}]))
     return jobs
 
 
@@ -536,8 +541,17 @@ def child_run(job: dict) -> dict:
                 flag_events["docs_page"] = f"global_parameters.evaluate is False after generating the documentation page of {op['m']} ({outcome})"
         elif kind == "failed_docs_page":
             # the documentation page of a law whose source raises half-way; the caller catches it
-            outcome = observe.failed_docs_page(op.get("m") or "symplyphysics.laws.dynamics.acceleration_is_force_over_mass")
-            global_parameters.evaluate = True  # an aborted page leaves the flag off; the user resets it by hand
+            for _ in range(int(op.get("repeat", 1))):
+                outcome = observe.failed_docs_page(op.get("m") or "symplyphysics.laws.dynamics.acceleration_is_force_over_mass")
+            # an aborted page leaves the flag off; the user resets it by hand, directly or with the library's call
+            if op.get("recover") == "api":
+                from symplyphysics.core.processors import reset_sympy_evaluation  # pylint: disable=import-outside-toplevel
+                reset_sympy_evaluation()
+                faults["recovered_by_api"] = faults.get("recovered_by_api", 0) + 1
+                if not global_parameters.evaluate and "recover" not in flag_events:
+                    flag_events["recover"] = (f"reset_sympy_evaluation() left evaluation off after {op.get('repeat', 1)} documentation page(s) "
+                                              f"that failed inside an evaluation-disabled window ({outcome})")
+            global_parameters.evaluate = True
             faults["failed_docs_page"] = faults.get("failed_docs_page", 0) + 1
         elif kind == "churn_dims":
             # many temporary quantities and dimension expressions are created, printed, converted and dropped
